@@ -356,7 +356,7 @@ class PlainTermsReader(base.TermsReader, LineReader):
             raise TermNotFound("No field %r" % fieldname)
 
     def _iter_fields(self):
-        self._find_root()
+        self._find_root("TERMS")
         c = self._find_line(1, "TERMFIELD")
         while c is not None:
             yield c["fn"]
@@ -389,7 +389,10 @@ class PlainTermsReader(base.TermsReader, LineReader):
         return self._iter_fields()
 
     def terms(self):
-        for fieldname in self._iter_fields():
+        # Listing a field's terms reads past the next TERMFIELD line, so get
+        # the field names first and then seek to each field in turn
+        for fieldname in list(self._iter_fields()):
+            self._find_field(fieldname)
             for btext in self._iter_btexts():
                 yield (fieldname, btext)
 
